@@ -259,6 +259,8 @@ func ruleSyncedIdBound(c *Check, rule string) {
 			continue
 		}
 		n, bad := 0, 0
+		// the function's first (named) result: the transaction id it reports
+		own := "local:" + fn.Signature.Results().At(0).Name()
 		for i := range paths {
 			p := &paths[i]
 			if p.End != "return" || !retIsNilErr(p) {
@@ -271,14 +273,14 @@ func ruleSyncedIdBound(c *Check, rule string) {
 				info = "conv:uint64(" + e.Res + "#0.LastTxnID)"
 			}
 			switch {
-			case id == "local:txnID":
+			case id == own:
 				// the id of our own transaction: only if LMDB's LastTxnID is not below it
-				if info == "" || p.State.RelOf("int", info, "local:txnID")&LT != 0 {
+				if info == "" || p.State.RelOf("int", info, own)&LT != 0 {
 					bad++
 					c.Bad(rule, name+"/unadjusted-id", "the transaction's own id is reported as synced on a path that has not established LastTxnID >= that id: an empty write transaction is not recorded by LMDB and its id is reused by the next commit, which would then never be noticed", c.pathPos(p), describe(c, p))
 				}
 			case info != "" && id == info:
-				if p.State.RelOf("int", info, "local:txnID") != LT {
+				if p.State.RelOf("int", info, own) != LT {
 					bad++
 					c.Bad(rule, name+"/adjusted-upwards", "LastTxnID is reported as synced on a path where it may be above the id of the transaction that was read: commits that happened after the dump would be considered synced", c.pathPos(p), describe(c, p))
 				}
@@ -336,7 +338,7 @@ func ruleShadowCreateMask(c *Check, rule string) {
 	}
 	mask, _ := c.constValue("syncer", "AllowedShadowDBIFlagsMask")
 	n, bad := 0, 0
-	for _, it := range loadIterations(paths) {
+	for _, it := range loadIterations(c, paths) {
 		p := it.p
 		for _, od := range callsOf(p, "(*lmdb.Txn).OpenDBI") {
 			if strings.HasPrefix(od.Args[1], "(const:\"_sync_shadow_\" + ") && strings.Contains(od.Args[2], "const:262144") {
@@ -387,8 +389,11 @@ func ruleRawReadRestored(c *Check, rule string) {
 					w := Walk(c.P, cl, WalkConfig{})
 					for k := range w.Paths {
 						for _, ce := range w.Paths[k].Events {
-							if ce.Kind == "store" && strings.HasSuffix(ce.Addr, ".RawRead") && ce.Val == "*free:restoreRawRead" {
-								restored = closureBinding(fn, cl, "restoreRawRead") == "alloc:restoreRawRead"
+							// the value put back is the captured local that was
+							// initialised from txn.RawRead before the switch
+							saved := freeInitSuffix(fn, cl, ".RawRead")
+							if ce.Kind == "store" && strings.HasSuffix(ce.Addr, ".RawRead") && saved != "" && ce.Val == "*free:"+saved {
+								restored = closureBinding(fn, cl, saved) == "alloc:"+saved
 							}
 						}
 					}
@@ -436,17 +441,9 @@ func ruleRawReadWriters(c *Check, rule string) {
 			}
 		}
 	}
-	fn, paths := c.walkFn(rule, fnSendOnce, WalkConfig{Memo: true,
-		KeepEvent: func(e *Event) bool {
-			return e.Kind == "ret" || e.Kind == "store" && strings.Contains(e.Addr, "RawRead") || e.Kind == "call" && strings.Contains(e.Callee, "lmdb.Env)")
-		},
-		KeepAtom: func(a Atom) bool { return false }})
-	if paths == nil {
-		return
-	}
 	cl := c.P.Func(sendTxn)
 	if cl == nil {
-		c.Undecided(rule, sendTxn, "SendOnce's transaction body not found", c.P.Pos(fn.Pos()))
+		c.Undecided(rule, sendTxn, "SendOnce's transaction body not found", "")
 		return
 	}
 	// what the body stores into txn.RawRead
@@ -463,12 +460,20 @@ func ruleRawReadWriters(c *Check, rule string) {
 			src = "const:" + v.Value.String()
 		case *ssa.UnOp:
 			if fv, ok := v.X.(*ssa.FreeVar); ok {
-				src = closureBinding(fn, cl, fv.Name())
+				src = closureBinding(c.P.Func(fnSendOnce), cl, fv.Name())
 			}
 		}
 	}
 	if nst != 1 || src == "" {
 		c.Undecided(rule, sendTxn+"/rawread", "the transaction body does not set txn.RawRead exactly once from a constant or a captured variable", c.P.Pos(cl.Pos()))
+		return
+	}
+	fn, paths := c.walkFn(rule, fnSendOnce, WalkConfig{Memo: true,
+		KeepEvent: func(e *Event) bool {
+			return e.Kind == "ret" || e.Kind == "store" && (strings.Contains(e.Addr, "RawRead") || strings.HasPrefix(src, "alloc:") && e.Addr == "&"+src) || e.Kind == "call" && strings.Contains(e.Callee, "lmdb.Env)")
+		},
+		KeepAtom: func(a Atom) bool { return false }})
+	if paths == nil {
 		return
 	}
 	nView, nWrite, bad := 0, 0, 0
